@@ -245,3 +245,69 @@ fn u13_1_material_codec() {
     assert!(n == 4 && c.position() == 4, "material record is 4 bytes");
     same_prefix!(out, buf, 4);
 }
+
+// model -> bytes direction: a bone built in memory (M2Bone::new, any header field values, name CRC present or not) is written
+// with exactly the record size of the version and parses back with the same header fields
+fn bone_from_model(version: u32) {
+    let mut b = M2Bone::new(kani::any(), kani::any());
+    b.flags = crate::chunks::bone::M2BoneFlags::from_bits_retain(kani::any());
+    b.submesh_id = kani::any();
+    b.bone_name_crc = if kani::any() { Some(kani::any()) } else { None };
+    let hdr = if version >= 260 { 16 } else { 12 };
+    let trk = if version < 264 { 28 } else { 20 };
+    let mut out = [0u8; 112];
+    let n = {
+        let mut w: &mut [u8] = &mut out[..];
+        if let Err(e) = b.write(&mut w, version) {
+            core::mem::forget(e);
+            assert!(false, "write succeeds");
+            return;
+        }
+        written(112, w)
+    };
+    assert!(n == hdr + 3 * trk + 12, "written bone record has the size of the version");
+    let mut c = Cursor::new(&out[..]);
+    let back = match M2Bone::parse(&mut c, version) {
+        Ok(x) => x,
+        Err(e) => {
+            core::mem::forget(e);
+            assert!(false, "the written bone parses");
+            return;
+        }
+    };
+    assert!(c.position() as usize == n, "parse consumes what write emitted");
+    assert!(back.bone_id == b.bone_id && back.parent_bone == b.parent_bone && back.submesh_id == b.submesh_id, "ids survive write->parse");
+    assert!(back.flags.bits() == b.flags.bits(), "flags survive write->parse");
+    if version >= 260 {
+        if let Some(crc) = b.bone_name_crc {
+            assert!(back.bone_name_crc == Some(crc), "name CRC survives write->parse");
+        }
+    }
+    core::mem::forget(b);
+    core::mem::forget(back);
+}
+
+// @harness unit=U13.1 props=C13 kind=bounded bound="version 256 (one representative per layout branch: <260, 260..263, >=264); empty tracks; every header field value" timeout=600 target="chunks/bone.rs: M2Bone::new / write / parse" oracle=m2_records
+#[kani::proof]
+#[kani::unwind(30)]
+#[kani::stub(alloc::fmt::format, stub_format)]
+fn u13_1_bone_from_model_v256() {
+    bone_from_model(256);
+}
+
+// @harness unit=U13.1 props=C13 kind=bounded bound="version 260 (one representative per layout branch: <260, 260..263, >=264); empty tracks; every header field value" timeout=600 target="chunks/bone.rs: M2Bone::new / write / parse" oracle=m2_records
+#[kani::proof]
+#[kani::unwind(30)]
+#[kani::stub(alloc::fmt::format, stub_format)]
+fn u13_1_bone_from_model_v260() {
+    bone_from_model(260);
+}
+
+// @harness unit=U13.1 props=C13 kind=bounded bound="version 264 (one representative per layout branch: <260, 260..263, >=264); empty tracks; every header field value" timeout=600 target="chunks/bone.rs: M2Bone::new / write / parse" oracle=m2_records
+#[kani::proof]
+#[kani::unwind(30)]
+#[kani::stub(alloc::fmt::format, stub_format)]
+fn u13_1_bone_from_model_v264() {
+    bone_from_model(264);
+}
+
